@@ -62,8 +62,9 @@ unsafe extern "C" fn robdd_builder_compile_cnf(
     }
 
     let builder = robdd_builder_from_ptr(builder);
-    let cnf = *Box::from_raw(cnf);
-    let ptr = builder.compile_cnf(&cnf);
+    // borrow the formula, like the native `compile_cnf(&cnf)` and like every other
+    // C function that takes a `Cnf*`: the caller may compile the same handle again
+    let ptr = builder.compile_cnf(&*cnf);
     Box::into_raw(Box::new(ptr))
 }
 
